@@ -65,7 +65,7 @@ func c03NamedTargets(r *Run) {
 					err = fmt.Errorf("PANIC: %v", p)
 				}
 			}()
-			err = avro.ReadFile(bytes.NewReader(file), out, func(val unsafe.Pointer, rb *avro.ResourceBank) error {
+			err = avro.ReadFile(&c07LenReader{r: bytes.NewReader(file), window: 16}, out, func(val unsafe.Pointer, rb *avro.ResourceBank) error {
 				if m := cb(val); m != "" && bad == "" {
 					bad = fmt.Sprintf("record %d: %s", n, m)
 				}
